@@ -334,6 +334,18 @@ def map_faults(ctx, i):
                             if r.error is not excs[it] or r.status.value != "failed":
                                 ctx.violation("C11:map-item-identity", f"runner.map/{runner}/k={k}: item {it}: status {r.status.value} error {r.error!r}, expected its own exception object", c2)
                                 break
+                            # the FAILED item carries what a single failing run on that item carries: everything the
+                            # synchronous runner had completed when it stopped at the failing node
+                            rt.reset_program()
+                            single_built = build_program(core.with_async(inner, False))
+                            rt.FAIL_IF[vfid] = _FailItems(over, bad_items, excs)
+                            single = core.execute(single_built, {**base_inputs, over: it}, "sync", error_handling="continue")
+                            ctx.obs["map_item_partials_checked"] += 1
+                            ctx.obs["partial_checked"] += 1
+                            lost = {k_: v_ for k_, v_ in (single.values or {}).items() if k_ not in (r.values or {}) or r.values[k_] != v_}
+                            if single.status == "failed" and lost:
+                                ctx.violation("C11:map-item-partial-missing", f"runner.map/{runner}/k={k}: FAILED item {it} carries {core.short(r.values)}; a single failing run on that item had completed {core.short(single.values)}", c2)
+                                break
                         elif r.status.value != "completed":
                             ctx.violation("C11:map-item-status", f"runner.map/{runner}/k={k}: healthy item {it} has status {r.status.value} ({r.error!r})", c2)
                             break
